@@ -107,7 +107,7 @@ class PointEngine(Engine):
     expected_probes = ['history_len_ge_3', 'select_by_image', 'select_by_rel', 'select_negative_id', 'refused_absent',
                        'refused_ambiguous', 'refused_occupied', 'refused_occupied_image', 'allowed_nonperiodic_image',
                        'differential_alternatives', 'kwargs_given', 'origin_nonzero_scaled_db', 'one_atom_system',
-                       'integer_pos_input', 'old_id_composed', 'scribbled_results', 'working_units_changed', 'dumbbell_vector_object_reused', 'working_units_from_seed', 'explicit_zero_tolerance']
+                       'integer_pos_input', 'old_id_composed', 'scribbled_results', 'working_units_changed', 'dumbbell_vector_object_reused', 'working_units_from_seed', 'explicit_zero_tolerance', 'box_changed_through_the_box_object']
     rule = ('Each run builds a base System (LAMMPS-oriented or rotated cell, any origin, any periodicity, 1-24 atoms with '
             'pairwise periodic separation >= 0.5 A, optionally one deliberately ambiguous pair 0.3*atol apart, 1-3 atom '
             'types, 0-3 extra per-atom properties of rank 0-2, optionally integer lattice coordinates) and applies a '
@@ -214,7 +214,9 @@ class PointEngine(Engine):
         if st['succ'] >= 6 and r.random() < 0.5:
             return None
         scen = ctx.wchoice([('normal', 6), ('absent', 1), ('ambiguous', 1.2 if st['cfg']['pair'] else 0.2), ('occupied', 1),
-                            ('illformed', 0.8), ('goto', 0.4), ('units', 0.5)])
+                            ('illformed', 0.8), ('goto', 0.4), ('units', 0.5), ('box_edit', 0.3)])
+        if scen == 'box_edit':
+            return {'op': 'box_edit', 'factor': r.choice([0.9, 1.1, 1.25, 1.5])}
         if scen == 'units':
             if r.random() < 0.3:
                 # working units re-drawn from a seed (numericalunits' own way); the length unit becomes some odd number
@@ -324,6 +326,18 @@ class PointEngine(Engine):
             ctx.fault('working_units_changed')
             ctx.probe('working_units_changed')
             ctx.ev('op', 'units', {'length': op['length']}, {'atol0': st['atol0']})
+            return
+        if k == 'box_edit':
+            # the caller strains the cell of the current system directly through its Box (not through System.box_set):
+            # atoms keep their Cartesian positions, periodic images move
+            m = st['hist'][st['cur']]
+            newV = np.array(m.V, dtype=float) * float(op['factor'])
+            m.real.box.vects = newV
+            m.V = np.array(m.real.box.vects, dtype=float)
+            m.snap = snapshot(m.real)
+            ctx.fault('box_changed_through_the_box_object')
+            ctx.probe('box_changed_through_the_box_object')
+            ctx.ev('op', 'box_edit', {'factor': op['factor']})
             return
         if k == 'goto':
             if 0 <= op['to'] < len(st['hist']):
